@@ -33,13 +33,16 @@ fn run_list(specs: &[ExchangeSpec], full: &[u8], offsets_out: &mut Vec<usize>, s
                 if let Ok(Some(nf)) = r.as_new_flow(ureq_proto::client::flow::RedirectAuthHeaders::SameHost) {
                     let m2 = nf.method().clone();
                     let nobody = crate::drive::exgen::no_body_clause(&m2, 200);
+                    // a request sent with send-body-despite-method and repeated by a 307/308: whether the followed flow remembers the
+                    // caller's wish is not stated; the caller states it again, so a body is due either way
+                    let carried_despite = spec.despite && !crate::drive::recv::needs_body(&spec.method) && matches!(spec.resp.head.status, 307 | 308);
                     let spec2 = ExchangeSpec {
                         method: m2,
                         req_v10: spec.req_v10,
                         uri: String::new(),
                         req_conn: spec.req_conn,
                         expect: spec.expect,
-                        despite: false,
+                        despite: carried_despite,
                         req_framing: ReqFraming::Auto,
                         extra_headers: vec![],
                         body: vec![],
